@@ -77,9 +77,10 @@ def coerce_int(maybe_int: _ScalarValue) -> int:
     if isinstance(maybe_int, int):
         numeric = maybe_int
     elif isinstance(maybe_int, float):
-        numeric = int(maybe_int)
-        if numeric != maybe_int:
+        # Also excludes nan and the infinities (`int(inf)` is an OverflowError).
+        if not maybe_int.is_integer():
             raise ValueError(INVALID_INT % maybe_int)
+        numeric = int(maybe_int)
     elif maybe_int is None:
         raise ValueError(INVALID_INT % "None")
     elif isinstance(maybe_int, str):
